@@ -227,11 +227,20 @@ func errKind(msg string) string {
 
 // observe returns everything the tracker reported since the previous call, as uniform records
 // {m: metric/log name, t: duty type, p: share index, r: reason code / rank, s: step label, e: error kind, v: delta}.
-func (o *observer) observe(t *testing.T) []any {
+//
+// Gathering the counters costs about a millisecond, far more than the tracker needs to record an event; so after a Call
+// only the log is looked at (full = false) and counter movements are picked up by the next full observation (every
+// Deadline / Delete and the End of the schedule): a tracker that instrumented something while merely recording an event is
+// still caught, one event later.
+func (o *observer) observe(t *testing.T, full bool) []any {
 	t.Helper()
 
 	obs := []any{}
-	cur := o.snapshot(t)
+	cur := o.prev
+
+	if full {
+		cur = o.snapshot(t)
+	}
 
 	keys := make([]metricKey, 0, len(cur))
 	for k := range cur {
@@ -503,7 +512,7 @@ func runOne(t *testing.T, tr *drv.Tracer, o *observer, sid int, sched []drv.Step
 		}
 	}
 
-	o.observe(t) // baseline (tracker.New initialises label combinations)
+	o.observe(t, true) // baseline (tracker.New initialises label combinations)
 
 	if exemptNames == nil {
 		exemptNames = []any{}
@@ -529,7 +538,7 @@ func runOne(t *testing.T, tr *drv.Tracer, o *observer, sid int, sched []drv.Step
 
 			ok = stimulate(func() { call(t, trk, step, duty, pks, stepErr, share, root) })
 			tr.Emit(drv.Step{"ev": "Call", "step": step, "d": st["d"], "pks": st["pks"], "err": drv.Str(st["err"]), "share": share,
-				"root": root, "obs": o.observe(t)})
+				"root": root, "obs": o.observe(t, false)})
 		case "Deadline":
 			duty := parseDuty(t, st["d"])
 			fired := analyser.pass(duty)
@@ -538,7 +547,7 @@ func runOne(t *testing.T, tr *drv.Tracer, o *observer, sid int, sched []drv.Step
 				ok = stimulate(func() { analyser.ch <- duty })
 			}
 
-			tr.Emit(drv.Step{"ev": "Deadline", "d": st["d"], "fired": fired, "obs": o.observe(t)})
+			tr.Emit(drv.Step{"ev": "Deadline", "d": st["d"], "fired": fired, "obs": o.observe(t, true)})
 		case "Delete":
 			duty := parseDuty(t, st["d"])
 			fired := deleter.pass(duty)
@@ -547,7 +556,7 @@ func runOne(t *testing.T, tr *drv.Tracer, o *observer, sid int, sched []drv.Step
 				ok = stimulate(func() { deleter.ch <- duty })
 			}
 
-			tr.Emit(drv.Step{"ev": "Delete", "d": st["d"], "fired": fired, "obs": o.observe(t)})
+			tr.Emit(drv.Step{"ev": "Delete", "d": st["d"], "fired": fired, "obs": o.observe(t, true)})
 		default:
 			t.Fatalf("unknown step %v", st)
 		}
@@ -562,6 +571,8 @@ func runOne(t *testing.T, tr *drv.Tracer, o *observer, sid int, sched []drv.Step
 			return true
 		}
 	}
+
+	tr.Emit(drv.Step{"ev": "End", "obs": o.observe(t, true)})
 
 	return false
 }
